@@ -323,6 +323,11 @@ func (_this *Decoder) decodeArrayChunks(eventReceiver events.DataEventReceiver, 
 		byteCount := common.ElementCountToByteCount(elementBitWidth, elementCount)
 		if byteCount > 0 {
 			nextBytes := _this.reader.ReadBytes(int(byteCount))
+			if elementBitWidth == 1 && elementCount&7 != 0 {
+				// The trailing upper bits of a bit array's last byte carry no
+				// data, and receivers are promised that they are cleared.
+				nextBytes[len(nextBytes)-1] &= byte(1<<(elementCount&7)) - 1
+			}
 			eventReceiver.OnArrayData(nextBytes)
 		}
 	}
